@@ -8,3 +8,15 @@ try:
     print("F8 progressive RESULT without kwargs delivered:", got)
 except Exception as e:
     print("F8 escaped from onMessage:", type(e).__name__, e)
+
+# --- progressive RESULT for a call issued without CallOptions
+def progressive_without_options():
+    s, t = joined()
+    d = s.call("com.x"); spin()
+    rid = [m for m in t.sent if isinstance(m, message.Call)][-1].request
+    try:
+        s.onMessage(message.Result(rid, args=[1], progress=True)); spin()
+        print("progressive RESULT without options: no exception; call still pending:", rid in s._call_reqs)
+    except Exception as e:
+        print("progressive RESULT without options raised", type(e).__name__, e)
+progressive_without_options()
